@@ -5,5 +5,5 @@ From Coq Require Import ExtrOcamlBasic.
 From C01 Require Import Model Table Table2.
 Extraction Language OCaml.
 Cd "ocaml".
-Extraction "model.ml" run.
+Extraction "model.ml" run run_o.
 Cd "..".
